@@ -6,6 +6,7 @@ import (
 	"github.com/jech/storrent/alloc"
 	"github.com/jech/storrent/config"
 	"github.com/jech/storrent/hash"
+	"github.com/jech/storrent/tor/piece"
 )
 
 var vCountNames = []string{"count0", "count1", "count2"}
@@ -40,4 +41,67 @@ func H_C03_torExpire() {
 		vReach("evicting")
 		vAssert(alloc.Bytes() >= config.MemoryHighMark(), "eviction only at or above the high mark")
 	}
+}
+
+var vExpPs []*piece.Pieces
+var vExpTarget []int64
+
+// vRecExpire stands in for the per-torrent eviction pass: it records the target it is given.
+func vRecExpire(ps *piece.Pieces, bytes int64, available []uint16, f func(index uint32)) int {
+	vExpPs = append(vExpPs, ps)
+	vExpTarget = append(vExpTarget, bytes)
+	return 0
+}
+
+// H_C03_torExpire_targets: the targets the global pass hands to the per-torrent passes, for 2..3
+// torrents holding any number of pieces and any memory mark, the byte counter being the sum of
+// what the torrents hold: if every per-torrent pass reaches its target (H_C03_expire: it does,
+// or empties the torrent), the total comes down to the low-water mark; torrents at or below
+// their fair share are left alone.
+func H_C03_torExpire_targets() {
+	config.MemoryMark = vI64("mark")
+	vAssume(config.MemoryMark >= 0 && config.MemoryMark <= int64(1)<<50)
+	n := vParam("n")
+	for i := 0; i < 3; i++ {
+		del(hash.Hash([]byte{byte(i), 1, 2, 3, 4, 5, 6, 7, 8, 9, 10, 11, 12, 13, 14, 15, 16, 17, 18, 19}))
+	}
+	var ts []*Torrent
+	var total int64
+	for i := 0; i < n; i++ {
+		t := &Torrent{Hash: hash.Hash([]byte{byte(i), 1, 2, 3, 4, 5, 6, 7, 8, 9, 10, 11, 12, 13, 14, 15, 16, 17, 18, 19})}
+		t.Pieces.MetadataComplete(16384, 4*16384)
+		c := vInt(vCountNames[i])
+		vAssume(c >= 0 && c <= 1<<26)
+		t.Pieces.VSetCount(c)
+		t.Done = make(chan struct{})
+		close(t.Done)
+		vAssume(add(t))
+		ts = append(ts, t)
+		total += t.Pieces.Bytes()
+	}
+	alloc.VSetBytes(total)
+	vExpPs, vExpTarget = nil, nil
+	r := Expire()
+	vJoin()
+	if r != -1 {
+		vReach("no-eviction")
+		vAssert(len(vExpPs) == 0, "no pass is started unless the verdict is 'evict'")
+		return
+	}
+	vReach("evicting")
+	low := config.MemoryLowMark()
+	var after int64
+	for _, t := range ts {
+		b := t.Pieces.Bytes()
+		for k := range vExpPs {
+			if vExpPs[k] == &t.Pieces {
+				vAssert(vExpTarget[k] >= 0, "targets are not negative")
+				vAssert(b > vExpTarget[k], "a pass is started only for a torrent above its target")
+				vAssert(vExpTarget[k] >= low/int64(n), "no torrent is pushed below the fair share")
+				b = vExpTarget[k]
+			}
+		}
+		after += b
+	}
+	vAssert(after <= low, "if every per-torrent pass reaches its target the total comes down to the low mark")
 }
